@@ -6,55 +6,105 @@ from lib import common, pipeline
 PROP = "C06"
 SPEC = os.path.join(common.VERIF, "spec", "ListHeap")
 VARS = ["lx", "ly", "lz"]
-OPS = ["copy-list", "subseq", "reverse", "butlast", "append", "remove", "mapcar", "cons", "cdr", "nthcdr", "last", "member",
-       "setcar", "setnth", "rplaca", "nconc", "nreverse", "sort", "delete", "list", "alias"]
+OPS = ["copy-list", "subseq", "reverse", "butlast", "append", "append0", "append3", "remove", "remove-if", "mapcar", "cons", "cdr",
+       "rest", "rest0", "nthcdr", "last", "member", "push", "pop", "setcar", "setnth", "setelt", "rplaca", "rplacd", "nconc",
+       "nreverse", "sort", "delete", "add", "list", "alias"]
+MODES = ["exact", "spare", "tail", "butlast", "appended"]
+NEEDS_ELEM = ("setcar", "rplaca", "setnth", "setelt", "rplacd", "subseq", "mapcar")
+
+
+def _mirror(ln, op):
+    """Upper bound of the length of every variable after op (keeps generated indices in range; the
+    verdict never depends on it: the acceptor recomputes everything from the observations)."""
+    o, s = op["op"], ln[op["src"]]
+    d = op["dst"]
+    if o in ("copy-list", "reverse", "nreverse", "mapcar", "alias", "sort", "rest0"):
+        ln[d] = s
+    elif o == "subseq":
+        ln[d] = op["k"]
+    elif o in ("butlast", "cdr", "rest"):
+        ln[d] = max(0, s - 1)
+    elif o in ("append", "nconc"):
+        ln[d] = s + ln[op["src2"]]
+    elif o == "append3":
+        ln[d] = s + ln[op["src2"]] + 1
+    elif o in ("cons", "append0", "add"):
+        ln[d] = s + 1
+    elif o == "nthcdr":
+        ln[d] = max(0, s - op["k"])
+    elif o == "last":
+        ln[d] = min(1, s)
+    elif o in ("remove", "delete", "member", "remove-if"):
+        ln[d] = 0       # unknown: be conservative, no setter will target it until reassigned
+    elif o == "list":
+        ln[d] = 2
+    elif o == "rplacd":
+        ln[d] = 0
+        ln[op["src"]] = min(ln[op["src"]], 1)
+    elif o == "push":
+        ln[op["src"]] = s + 1
+    elif o == "pop":
+        ln[op["src"]] = max(0, s - 1)
+    if o in ("nconc", "add", "delete", "sort", "nreverse"):
+        # lists that may share with the argument are of unknown length now
+        pass
+
+
+def _fit(rng, ln, op):
+    """Make op applicable under the length mirror, or return None."""
+    s = ln[op["src"]]
+    o = op["op"]
+    if o in NEEDS_ELEM and s == 0:
+        return None             # (subseq nil ..) / (mapcar f nil) are rejected by slip: C14's business
+    if o in ("setnth", "setelt"):
+        op["k"] = rng.randrange(s)
+    if o == "subseq":
+        op["k"] = rng.randint(0, s)
+    if o in ("push", "pop"):
+        op["dst"] = op["src"]
+    return op
 
 
 def histories(rng, n, steps, exclude):
-    """Seeded-random histories; a light mirror of list lengths keeps indices in range.
-    (The verdict never depends on this mirror: the acceptor recomputes everything.)"""
+    """Seeded-random histories over three variables with varied initial construction."""
     out = []
     ops = [o for o in OPS if o not in exclude]
     for t in range(1, n + 1):
-        init = {v: [rng.randint(1, 3) for _ in range(rng.randint(0, 3))] for v in VARS}
+        init = {v: [rng.randint(1, 4) for _ in range(rng.randint(0, 3))] for v in VARS}
+        mode = {v: rng.choice(MODES) for v in VARS}
         ln = {v: len(init[v]) for v in VARS}
         seq = []
         for _ in range(steps):
             op = {"op": rng.choice(ops), "dst": rng.choice(VARS), "src": rng.choice(VARS), "src2": rng.choice(VARS),
-                  "a": rng.randint(1, 3), "k": rng.randint(0, 2)}
-            s = ln[op["src"]]
-            o = op["op"]
-            if o in ("setcar", "rplaca", "setnth") and s == 0:
+                  "a": rng.randint(1, 4), "k": rng.randint(0, 2)}
+            if _fit(rng, ln, op) is None:
                 continue
-            if o in ("subseq", "mapcar") and s == 0:
-                continue            # (subseq nil ..) / (mapcar f nil) are rejected by slip: C14's business
-            if o == "setnth":
-                op["k"] = rng.randrange(s)
-            if o == "subseq":
-                op["k"] = rng.randint(0, s)
             seq.append(op)
-            # length mirror (upper bounds are enough)
-            if o in ("copy-list", "reverse", "nreverse", "mapcar", "alias", "sort"):
-                ln[op["dst"]] = s
-            elif o == "subseq":
-                ln[op["dst"]] = op["k"]
-            elif o == "butlast":
-                ln[op["dst"]] = max(0, s - 1)
-            elif o in ("append", "nconc"):
-                ln[op["dst"]] = s + ln[op["src2"]]
-            elif o == "cons":
-                ln[op["dst"]] = s + 1
-            elif o == "cdr":
-                ln[op["dst"]] = max(0, s - 1)
-            elif o == "nthcdr":
-                ln[op["dst"]] = max(0, s - op["k"])
-            elif o == "last":
-                ln[op["dst"]] = min(1, s)
-            elif o in ("remove", "delete", "member"):
-                ln[op["dst"]] = 0       # unknown: be conservative, no setter will target it until reassigned
-            elif o == "list":
-                ln[op["dst"]] = 2
-        out.append({"id": t, "init": init, "ops": seq})
+            _mirror(ln, op)
+        out.append({"id": t, "init": init, "mode": mode, "ops": seq})
+    return out
+
+
+def pairs(rng, first_id, exclude):
+    """Every operation followed by every operation, on every construction mode of the list they work on:
+    op1 derives ly from lx, op2 works on lx, ly or both; all three variables are observed after each."""
+    out = []
+    ops = [o for o in OPS if o not in exclude]
+    for mode in MODES:
+        for o1 in ops:
+            for o2 in ops:
+                for (d2, s2, t2) in (("lz", "lx", "ly"), ("lz", "ly", "lx"), ("ly", "ly", "lx"), ("lx", "lx", "ly")):
+                    init = {"lx": [1, 2, 3], "ly": [4], "lz": [2, 1]}
+                    ln = {v: len(init[v]) for v in VARS}
+                    a = {"op": o1, "dst": "ly", "src": "lx", "src2": "lz", "a": 5, "k": 1}
+                    if _fit(rng, ln, a) is None:
+                        continue
+                    _mirror(ln, a)
+                    b = {"op": o2, "dst": d2, "src": s2, "src2": t2, "a": 6, "k": 0}
+                    if _fit(rng, ln, b) is None:
+                        continue
+                    out.append({"id": first_id + len(out), "init": init, "mode": {"lx": mode, "ly": "exact", "lz": "exact"},
+                                "ops": [a, b]})
     return out
 
 
@@ -64,14 +114,16 @@ def run(tier, seed):
     rng = random.Random(seed)
     findings = [f for f in common.load_findings(PROP) if f.get("status") == "open"]
     excluded = {f["feature"].split(":", 1)[1] for f in findings if f["feature"].startswith("op:")}
-    n, steps = (3000, 8) if tier == "quick" else (60000, 10)
+    n, steps = (15000, 8) if tier == "quick" else (150000, 10)
     main = histories(rng, n, steps, excluded)
+    main += pairs(rng, len(main) + 1, excluded)
+    n = len(main)
     probes = []
     for f in findings:
-        for k, w in enumerate([f["witness"]] + [h for h in histories(random.Random(seed + 1), 200, 8, set()) if any(
+        for k, w in enumerate([f["witness"]] + [dict(h) for h in histories(random.Random(seed + 1), 200, 8, set()) if any(
                 o["op"] == f["feature"].split(":", 1)[1] for o in h["ops"])][:40]):
             probes.append(dict(w, id=n + len(probes) + 1, finding=f["id"]))
-    events = pipeline.drive(vdrive, "c06", main + [{k: p[k] for k in ("id", "init", "ops")} for p in probes], chunk=500)
+    events = pipeline.drive(vdrive, "c06", main + [{k: p.get(k, {}) for k in ("id", "init", "mode", "ops")} for p in probes], chunk=500)
     res = pipeline.accept(SPEC, "ListHeapTrace", "ListHeapTrace.cfg", events)
     probe_of = {p["id"]: p["finding"] for p in probes}
     by_id = {s["id"]: s for s in main}
@@ -89,8 +141,11 @@ def run(tier, seed):
             rep.known.append(f["summary"] + f" ({len(hit[f['id']])} probes rejected)")
     rep.cov.update({"states": res["states"], "transitions": res["lines"], "traces_validated_against_impl": len(main) + len(probes),
                     "evaluations": res["checked"], "distinct_nontrivial": len({json.dumps(s["ops"]) for s in main}),
-                    "rule": f"{n} seeded-random histories of {steps} operations over 21 list operations and 3 variables with aliasing; "
-                            "every live variable observed after every operation; distinct = distinct operation sequences",
+                    "rule": f"every ordered pair of the {len(OPS)} list operations x 4 argument patterns x 5 ways the list was built (exact, spare "
+                            f"capacity, tail of a longer list, butlast, append result) + seeded-random histories of {steps} operations over 3 "
+                            "variables; every variable observed after every operation and judged by the TLA+ acceptor ListHeapTrace "
+                            "(value the language defines; frame condition: only lists that may share by the language rules may change); "
+                            "distinct = distinct operation sequences",
                     "samples": [main[0], main[len(main) // 2]], "exhaustive": False,
                     "probes": {k: len(v) for k, v in hit.items()}})
     return rep.finish()
